@@ -27,7 +27,7 @@ var p1, p2, p3 = &P2{1, 2}, &P2{1, 2}, &P2{3, 4}
 func pool(t reflect.Type) []interface{} {
 	switch t {
 	case reflect.TypeOf(0):
-		return []interface{}{1, 2, 3}
+		return []interface{}{1, 2, 3, 1 << 53, 1<<53 + 1}
 	case reflect.TypeOf(""):
 		return []interface{}{"a", "b", "3"}
 	case reflect.TypeOf(uint8(0)):
